@@ -6,6 +6,8 @@ import EinoV.Model.C15
 import EinoV.Expected.C15
 import EinoV.Proofs.C15Trie
 
+set_option linter.unusedSimpArgs false
+
 namespace EinoV.C15
 
 /-! ### Option helpers -/
